@@ -1,4 +1,4 @@
-import MxlVerif.Lemmas.C12JacRhs
+import MxlVerif.Lemmas.C12JacFn
 import MxlVerif.Model.C12Witness
 namespace Mxl.C12
 
@@ -107,6 +107,24 @@ theorem C12_jac_env_aligned (sc : SContent) (hwf : sc.wf = true) (vn pn : List N
   obtain ⟨cache, hc, hvn, hpn, hpv⟩ := jacArgs_inv sc vn pn pv h
   subst hvn hpn hpv
   exact ⟨cache, hc, fun n hn => lamEnv_aligned sc hwf cache hc J t xs n hn⟩
+
+/-- **the closure handed to the integrator is right.**  Whenever `jac_fn(t, x)` returns a matrix
+    (`callJac`), the model converted, and the matrix is `D` of exactly its equations, read at the
+    state `x` the integrator passes and at the model's parameter values (the environment of
+    `C12_eqs_sound`), whatever `t`.  (On the pinned tree the call raised `TypeError`, F-C12-1.) -/
+theorem C12_jacfn_sound (sc : SContent) (hwf : sc.wf = true) (t : Rat) (xs : List Rat)
+    (J : List (List Rat)) (h : callJac sc t xs = .ok (some J)) :
+    ∃ cache es, createCache sc.toContent = .ok cache ∧ toSymbolic sc = .ok es ∧
+      J = (jacobianOf es cache.varNames).map fun row => row.map (evalS (symEnv sc cache xs)) :=
+  jacfn_sound sc hwf t xs J h
+
+/-- the equations mention only variable symbols, plain-parameter symbols and data symbols (never
+    `time`, a reaction, a derived quantity or a library function's own argument name) -/
+theorem C12_eqs_symbols (sc : SContent) (es : List SExpr) (h : toSymbolic sc = .ok es) :
+    ∃ cache, createCache sc.toContent = .ok cache ∧
+      ∀ e ∈ es, ∀ n ∈ freeSyms e,
+        n ∈ omKeys cache.init ∨ n ∈ omKeys cache.basePars ∨ n ∈ omKeys sc.data :=
+  toSymbolic_syms sc es h
 
 /-- **never wrong equations in the simulator**: a Jacobian is handed to the integrator only when
     the conversion succeeded, and then it is `D` of exactly those equations; otherwise the
